@@ -5,6 +5,7 @@ package main
 // check-sat-assuming on top of it. Any "(error" line => inconclusive.
 
 import (
+	"sync"
 	"bufio"
 	"fmt"
 	"io"
@@ -59,8 +60,36 @@ func solverArgv() []string {
 	return []string{"z3", "-in"}
 }
 
+// solverArgvFor: the unit's own solver if its spec names one (GOSYM_SOLVER still overrides)
+func solverArgvFor(u *Unit) []string {
+	if os.Getenv("GOSYM_SOLVER") == "" && u != nil && u.Solver != "" {
+		usedSolversMu.Lock()
+		usedSolvers[u.Solver] = true
+		usedSolversMu.Unlock()
+		return strings.Fields(u.Solver)
+	}
+	return solverArgv()
+}
+
+var (
+	usedSolvers   = map[string]bool{}
+	usedSolversMu sync.Mutex
+)
+
 func solverName() string {
 	a := solverArgv()
+	extra := ""
+	for k := range usedSolvers {
+		f := strings.Fields(k)
+		if out, err := exec.Command(f[0], "--version").Output(); err == nil {
+			extra += "; unit solver: " + strings.SplitN(strings.TrimSpace(string(out)), "\n", 2)[0] + " (" + k + ")"
+		}
+	}
+	defer func() { _ = extra }()
+	return solverNameOf(a) + extra
+}
+
+func solverNameOf(a []string) string {
 	out, err := exec.Command(a[0], "--version").Output()
 	if err != nil {
 		return a[0]
